@@ -225,14 +225,72 @@ def probe_relocation_name(ctx):
         shutil.rmtree(tmpdir, ignore_errors=True)
 
 
+def probe_descriptor_fields_and_passes(ctx):
+    """(a) volume descriptors made with set size != sequence number, in every descriptor flavour and with copies: every
+    both-endian field must agree (the independent reader checks all of them); (b) TWO layout passes on one object with edits in
+    between that keep a directory at its extent but change its number in the path table (one directory in front of it goes,
+    the root grows by the same amount): the parent directory numbers written by the second pass must be those of the
+    final hierarchy"""
+    import io
+    import pycdlib
+    tmpdir = tempfile.mkdtemp(prefix='verif-c03d-')
+    path = os.path.join(tmpdir, 'p.iso')
+
+    def judge(sig, what, rp):
+        rep = isoapi.read_image(ctx, path)
+        for e in rep.errs:
+            code = e.split(':')[0]
+            if histcheck.owns(code, histcheck.ECMA_CODES):
+                ctx.violation('C03.%s/%s' % (sig, code), '%s: %s' % (what, e[:160]), rp)
+    try:
+        for set_size, seq in ((3, 1), (2, 2), (5, 3), (65535, 1), (300, 299)):
+            for flavour in ({}, {'joliet': 3}, {'interchange_level': 4}, {'rock_ridge': '1.09', 'joliet': 1}):
+                rp = {'kind': 'probe-descriptor-fields'}
+                with isoapi.frozen_time():
+                    iso = pycdlib.PyCdlib()
+                    iso.new(set_size=set_size, seqnum=seq, **flavour)
+                    iso.duplicate_pvd()
+                    iso.add_directory('/D', **({'rr_name': 'd'} if flavour.get('rock_ridge') else {}), **({'joliet_path': '/d'} if flavour.get('joliet') else {}))
+                    iso.write(path)
+                    iso.close()
+                ctx.count(key=('descriptor-fields', set_size, seq, tuple(sorted(flavour))), nontrivial=True, kind='probe:descriptor-fields')
+                judge('descriptor-fields', 'new(set_size=%d, seqnum=%d, %s)' % (set_size, seq, flavour), rp)
+        for flavour in ({}, {'joliet': 3}, {'rock_ridge': '1.09'}):
+            for nfiles in (46, 50, 60):
+                rp = {'kind': 'probe-descriptor-fields'}
+                rr = lambda n: ({'rr_name': n} if flavour.get('rock_ridge') else {})   # noqa
+                jl = lambda p: ({'joliet_path': p} if flavour.get('joliet') else {})   # noqa
+                with isoapi.frozen_time():
+                    iso = pycdlib.PyCdlib()
+                    iso.new(**flavour)
+                    iso.add_directory('/A', **rr('a'), **jl('/a'))
+                    iso.add_directory('/B', **rr('b'), **jl('/b'))
+                    iso.add_directory('/B/SUB', **rr('sub'), **jl('/b/sub'))
+                    iso.add_directory('/B/SUB/DEEP', **rr('deep'), **jl('/b/sub/deep'))
+                    iso.write_fp(io.BytesIO())
+                    for i in range(nfiles):
+                        iso.add_fp(io.BytesIO(b'x'), 1, '/F%05d.;1' % i, **rr('f%05d' % i), **jl('/f%05d' % i))
+                    iso.rm_directory('/A', **rr('a'), **jl('/a'))
+                    iso.write(path)
+                    iso.close()
+                ctx.count(key=('two-passes', tuple(sorted(flavour)), nfiles), nontrivial=True, kind='probe:two-passes')
+                judge('two-passes', 'write, %d root files added and /A removed, write again (%s)' % (nfiles, flavour), rp)
+    finally:
+        shutil.rmtree(tmpdir, ignore_errors=True)
+
+
 def run(ctx):
     probe_relocation_name(ctx)
+    probe_descriptor_fields_and_passes(ctx)
     c01.run(ctx, focus='C03', post=post, n_quick=150, n_thorough=4000, force={'duppvd': True})
     # the same for images that were opened and edited again (several descriptor copies, moved root, parsed tables)
     c01.run(ctx, focus='C03', post=post, n_quick=60, n_thorough=1500, force={'duppvd': True}, reopen_every=6)
 
 
 def replay(ctx, obj):
+    if obj.get('replay', obj).get('kind') == 'probe-descriptor-fields':
+        probe_descriptor_fields_and_passes(ctx)
+        return [v['signature'] for v in ctx.violations]
     if obj.get('replay', obj).get('kind') == 'probe-relocation-name':
         probe_relocation_name(ctx)
         return [v['signature'] for v in ctx.violations]
